@@ -437,7 +437,9 @@ fn gen_unit_status(cases: &mut Cases) {
 // ------------------------------------------------------------------------------------------------
 // e2e stream
 
-struct Server { db: Arc<LocustDB>, handle: actix_web::dev::ServerHandle, base: String }
+/// `db` is shared with the server; `twin` is a second database that receives the same batches through the
+/// embedded API only (same options, same flush points).
+struct Server { db: Arc<LocustDB>, twin: Arc<LocustDB>, handle: actix_web::dev::ServerHandle, base: String }
 
 fn free_port() -> u16 {
     let l = std::net::TcpListener::bind("127.0.0.1:0").unwrap();
@@ -447,10 +449,11 @@ fn free_port() -> u16 {
 fn start_server() -> Option<Server> {
     let opts = Options { threads: 1, read_threads: 1, partition_combine_factor: 1_000_000_000, metrics_table_name: None, metrics_interval: 3600, ..Options::default() };
     let db = Arc::new(LocustDB::new(&opts));
+    let twin = Arc::new(LocustDB::new(&opts));
     for _ in 0..20 {
         let port = free_port();
         match locustdb::server::run(db.clone(), false, vec![], format!("127.0.0.1:{}", port)) {
-            Ok((handle, _rx)) => return Some(Server { db, handle, base: format!("http://127.0.0.1:{}", port) }),
+            Ok((handle, _rx)) => return Some(Server { db, twin, handle, base: format!("http://127.0.0.1:{}", port) }),
             Err(_) => continue,
         }
     }
@@ -783,14 +786,32 @@ async fn scenario(srv: &Server, http: &reqwest::Client, cases: &mut Cases, rng: 
         if e > s || n == 0 {
             let batch = Batch { table: tname.clone(), len: (e - s) as u64,
                 cols: cols.iter().map(|(name, c)| (name.clone(), ColRep::from_cells(&c[s..e], rng.next()))).collect() };
-            if e > s { if !ctx.insert_raw(&[batch], &format!("rows {}..{}", s, e)).await { return; } }
+            if e > s {
+                // the same batch through the embedded API into the twin database
+                let eb = event_buffer(&[batch.clone()]);
+                srv.twin.ingest_efficient(eb).await;
+                if !ctx.insert_raw(&[batch], &format!("rows {}..{}", s, e)).await { return; }
+            }
             inserted = e;
         }
         if rng.chance(1, 2) {
-            let db2 = srv.db.clone();
-            if with_deadline(60, move || db2.force_flush()).is_none() { eprintln!("c17: flush hang in scenario {}", sid); return; }
+            for d in [srv.db.clone(), srv.twin.clone()] {
+                if with_deadline(60, move || d.force_flush()).is_none() { eprintln!("c17: flush hang in scenario {}", sid); return; }
+            }
         }
         ctx.tag = format!("s{} rows={} batch={}/{}", sid, inserted, b + 1, nb);
+        // rows inserted through /insert_bin vs the same batches through the embedded API: same query results
+        {
+            let mut diff = String::new();
+            for q in &qs {
+                let a = embedded(&srv.db, q, true).await;
+                let t = embedded(&srv.twin, q, true).await;
+                let show = |e: &Emb| match &e.out { Ok(o) => format!("{} {} {}", names_tok(&o.colnames), named(&o.columns), rows_tok_values(o.rows.as_deref().unwrap_or(&[]))), Err(v) => format!("err:{}", v) };
+                if show(&a) != show(&t) { diff = format!("differs on {}", q.replace(['\t', '\n'], " ")); break; }
+            }
+            let out = if diff.is_empty() { "same".to_string() } else { diff };
+            ctx.cases.push("e2e:twin:insert_bin-vs-embedded-ingest", &format!("e2e twin :: {}", out), &out, &ctx.tag.clone());
+        }
         // queries interleaved with the inserts, all endpoints on the one pool
         for q in &qs {
             if !thorough && b + 1 < nb && rng.chance(1, 2) { continue; }
@@ -945,7 +966,7 @@ fn main() {
                 srv.handle.stop(false).await;
             } else { cases.push("e2e:server-start", "e2e start :: failed", "failed", ""); }
             let groups = if thorough { 12 } else { 3 };
-            let per_group = if thorough { 50 } else { 14 };
+            let per_group = if thorough { 50 } else { 10 };
             let mut sid = 0;
             for _ in 0..groups {
                 // one database + server per group; every scenario has its own tables
